@@ -538,3 +538,24 @@ Proof.
   intros f g [[[p s] e] v] H d'. unfold override_call, in_span.
   destruct (call_span p s e) as [[a b]|]; [now rewrite H|apply H].
 Qed.
+
+(** ** A value of a type that is not allowed: the call is always refused *)
+
+Lemma update_checked_ill_typed {V} (h : hist V) p start stop :
+  update_checked h p start stop UIllTyped
+  = match call_span p start stop with
+    | Ok _ => Err EOther
+    | Err x => Err x
+    end.
+Proof.
+  unfold update_checked. rewrite update_call.
+  destruct (call_span p start stop) as [[s e]|x]; reflexivity.
+Qed.
+
+Lemma update_checked_spec {V} (h : hist V) p start stop :
+  (forall v, update_checked h p start stop (UVal v) = update h p start stop v)
+  /\ (exists x, update_checked h p start stop (@UIllTyped V) = Err x).
+Proof.
+  split; [reflexivity|]. rewrite update_checked_ill_typed.
+  destruct (call_span p start stop) as [[s e]|x]; eauto.
+Qed.
